@@ -403,6 +403,39 @@ def _norm_returns(summary):
     return out
 
 
+def _with_unshared_callees_inlined(facts, a, b):
+    """Copies of a / b in which calls to local, non-recursive functions that the other side does not call (under the pino_ name
+    map) are inlined once; None where nothing changed."""
+    import copy
+    from analysis import canon
+    from analysis.ir import Fn
+
+    def names(f):
+        return {(callee_path(t) or "").rsplit("::", 1)[-1].replace("pino_", "") for _, t in f.calls()}
+    na_, nb_ = names(a), names(b)
+
+    def inl(f, other_names):
+        rec = None
+        for bi, t in list(f.calls()):
+            p = callee_path(t)
+            g = facts.fns.get(p) if p else None
+            if g is None or g.kind != "fn" or g is f or f.blocks[bi]["c"]:
+                continue
+            short = p.rsplit("::", 1)[-1].replace("pino_", "")
+            if short in other_names or len(g.blocks) > 120:
+                continue
+            if rec is None:
+                rec = copy.deepcopy(f.rec)
+            before = canon._reachable(rec)
+            canon.inline_call(rec, bi, g.rec)
+            canon._neutralise(rec, before)
+        if rec is None:
+            return None
+        rec["path"] = f.path
+        return Fn(rec, facts)
+    return inl(a, nb_), inl(b, na_)
+
+
 def compare_pair(run, rule, a_path, b_path, keys=ALL, subs_b=(), exempt=(), subs_a=(), norm_a=None, norm_b=None):
     facts = run.facts
     a, b = facts.fn(a_path), facts.fn(b_path)
@@ -419,6 +452,19 @@ def compare_pair(run, rule, a_path, b_path, keys=ALL, subs_b=(), exempt=(), subs
     sa = _norm_returns(_apply(S.summary(a, na), list(subs_a)))
     sb = _norm_returns(_apply(S.summary(b, nb), list(subs_b)))
     d = S.diff(sa, sb, keys, exempt=list(exempt))
+    if d:
+        # one side may reach the shared work through a local function the other side spells out (or the reverse): retry with the
+        # local callees that only one side calls spliced in (the same MIR inlining the loader uses for new helpers)
+        a2, b2 = _with_unshared_callees_inlined(facts, a, b)
+        for (xa, xb) in ((a2, None), (None, b2), (a2, b2)):
+            if xa is None and xb is None:
+                continue
+            sa2 = _norm_returns(_apply(S.summary(xa or a, na), list(subs_a)))
+            sb2 = _norm_returns(_apply(S.summary(xb or b, nb), list(subs_b)))
+            d2 = S.diff(sa2, sb2, keys, exempt=list(exempt))
+            if not d2:
+                sa, sb, d = sa2, sb2, d2
+                break
     if not d:
         run.ok(rule, inst, detail="%s equal after the name map (%s)" % ("/".join(keys), ", ".join("%d %s" % (len(sa[k]), k) for k in keys)))
         return
